@@ -18,6 +18,10 @@ def run(chk):
     cfgs = ["base", "z"]
     chk.configs = cfgs
     chk.rule("FLOAT.double-only", "no float-typed expression and no single-precision math function in any library function")
+    chk.rule("POLY.intersect", "GetSegmentIntersectPt (both precision variants): as a real-number formula the stored point lies on the lines through both "
+             "segments, and 'parallel' is reported iff the cross product of the directions vanishes (identity of polynomial normal forms)")
+    chk.rule("POLY.cross", "CrossProductSign / IsCollinear / ProductsAreEqual compare two products whose difference is identically the cross product "
+             "(pt2-pt1)x(pt3-pt2); portable path: magnitudes and signs of the same factors; 128-bit tail returns sign(ab-cd) / (ab==cd) on every ordering")
     chk.rule("T.symmetry", "T(Positive, wc, wc2) == T(Negative, -wc, -wc2); NonZero invariant under negation; T independent of own path "
              "type for Intersection / Union / Xor")
     chk.rule("AXIS.mirror", "twin locals for the two axes read mirrored coordinates (transposing the input transposes the result)")
@@ -36,6 +40,9 @@ def run(chk):
         e3.axis_mirror_rule(db, chk, cfg)
         e3.no_single_precision(db, chk, cfg)
         e3.closing_vertex_rule(db, chk, cfg)
+        from ..engines import e14_poly as e14
+        e14.rule_intersect(db, chk, cfg)
+        e14.rule_cross(db, chk, cfg)
     chk.floor("T.symmetry", 1700 * len(cfgs))
     chk.floor("T.comparator", 1600 * len(cfgs))
     chk.exhaustive = True
